@@ -69,6 +69,10 @@ let () =
              let par = inside_parity fops vs fs p ((0.5257311121191336, 0.3090169943749474), 0.7946544722917661) in
              Printf.printf "NEAR %.17g %d %d %d\n" d2 (if sd > 0.0 then 1 else 0) (if interior then 1 else 0) (if par then 1 else 0)
          | None -> print_endline "NEAR -")
+    | "NF" -> cert ();
+        let vs = List.rev !verts and fs = List.rev !faces in
+        print_endline ("NFACE" ^ String.concat "" (List.map (fun ((i0, i1), i2) ->
+          Printf.sprintf " %.17g" (dist2_pt_tri fops (v3 a 1) (vert fops vs i0) (vert fops vs i1) (vert fops vs i2))) fs))
     | "R" -> cert ();
         let vs = List.rev !verts and fs = List.rev !faces in
         (match ray_brute fops vs fs (v3 a 1) (v3 a 4) with
